@@ -3,6 +3,19 @@ from .common import *
 
 FEATURES = None
 
+# instantiations above 160 digits/1024 bits that the shared quick list does not contain: the property
+# quantifies over 8..8192 bits, and a change keyed to a digit count (e.g. N >= 33 for u8 digits) must be seen.
+# Few, well-chosen requests each (one 8192-bit draw costs the Lean digit-level model ~50 ms).
+WIDE_CFGS_QUICK = ["8x24", "8x40", "8x64", "16x20", "64x16", "64x64"] + HUGE_CFGS
+WIDE_CFGS_THOROUGH = WIDE_CFGS_QUICK
+
+INCL_OPS = ("sample_single_inclusive", "uniform_new_inclusive", "gen_range_inclusive")
+EXCL_OPS = ("sample_single", "uniform_new", "gen_range")
+# least-used entry points: `UniformSampler::new(_inclusive)` + `sample` called directly, `Uniform::from(range)`
+RARE_INCL_OPS = ("sampler_new_inclusive", "uniform_from_inclusive")
+RARE_EXCL_OPS = ("sampler_new", "uniform_from")
+FILL_OPS = ("fill", "fill_each", "fill_trait", "rng_fill", "rng_try_fill")
+
 
 def stream(rng, nbytes, k):
     """k words of nbytes each, biased to extreme words (accept/reject on both sides of the zone)"""
@@ -18,16 +31,22 @@ def stream(rng, nbytes, k):
         elif c == 3:
             wv = b"\xff" * (nbytes - 1) + bytes([rng.randrange(256)])
         else:
-            wv = bytes(rng.randrange(256) for _ in range(nbytes))
+            wv = rng.randbytes(nbytes)
         out += wv
     return out
 
 
-def bounds(rng, w, n, signed):
+def limits(W, signed):
+    M = 1 << W
+    return (-(M >> 1), (M >> 1) - 1) if signed else (0, M - 1)
+
+
+def bounds(rng, w, n, signed, c=None):
     W = w * n
     M = 1 << W
-    c = rng.randrange(10)
-    lo_lim, hi_lim = (-(M >> 1), (M >> 1) - 1) if signed else (0, M - 1)
+    if c is None:
+        c = rng.randrange(10)
+    lo_lim, hi_lim = limits(W, signed)
     if c == 0:
         lo, hi = lo_lim, hi_lim                       # full range
     elif c == 1:
@@ -61,6 +80,13 @@ def bounds(rng, w, n, signed):
     return pat(lo, W), pat(hi, W)
 
 
+def excl_high(hi, W, signed):
+    """pattern of hi + 1 (the exclusive bound of the same range), None when hi is the type's MAX"""
+    if hi == pat(limits(W, signed)[1], W):
+        return None
+    return (hi + 1) % (1 << W)
+
+
 def boundary_words(rng_, W, unsigned_range):
     """RNG words whose low product half lands exactly on / next to the acceptance zone boundary.
     range = 0 means the full range (no rejection). Both zone formulas of the sampling law are tried."""
@@ -85,12 +111,148 @@ def boundary_words(rng_, W, unsigned_range):
     return out
 
 
+def straddle(W, r, stored):
+    """[a word rejected just above the acceptance zone (when one exists), a word accepted on the zone's last
+    multiple] for the zone of `Uniform::sample` (stored) resp. of `sample_single_inclusive`"""
+    from math import gcd
+    if r == 0:
+        return []
+    M = 1 << W
+    g = gcd(r, M)
+    zone = M - 1 - (M % r) if (stored or W <= 16) else ((r << (W - r.bit_length())) - 1) % M
+    inv = pow(r // g, -1, M // g)
+    out = []
+    t = zone + 1 + (-(zone + 1)) % g
+    if t < M:
+        out.append((t // g) * inv % (M // g))
+    out.append(((zone - zone % g) // g) * inv % (M // g))
+    return out
+
+
+def sampling_line(op, s, cfg, lo, hi, st):
+    return f"{op} {s}{cfg} {hx(lo)} {hx(hi)} {st.hex() or '-'}"
+
+
+def both_forms(rng, s, cfg, W, lo, hi, st, tag, incl_ops, excl_ops):
+    """the same range through the inclusive entry points and, when high + 1 is representable, through the
+    exclusive ones (`high - ONE` inside `sample_single` / `new`)"""
+    for op in incl_ops:
+        yield sampling_line(op, s, cfg, lo, hi, st), tag
+    h1 = excl_high(hi, W, s == "i")
+    if h1 is not None:
+        for op in excl_ops:
+            yield sampling_line(op, s, cfg, lo, h1, st), tag
+
+
+def gen_wide(rng, tier):
+    """every cheap op, and a few draws of every sampling entry point, on the widest instantiations"""
+    for cfg in (WIDE_CFGS_THOROUGH if tier == "thorough" else WIDE_CFGS_QUICK):
+        w, n = wn(cfg)
+        W = w * n
+        BY = W // 8
+        for s in "ui":
+            st = stream(rng, BY, 1) + rng.randbytes(rng.randrange(3))
+            yield f"standard {s}{cfg} {st.hex()}", "wide-standard"
+            yield f"standard_err {s}{cfg} {st[:BY - 1].hex() or '-'}", "wide-short-stream"
+            k = rng.randrange(1, 4)
+            st = stream(rng, BY, k) + rng.randbytes(rng.randrange(3))
+            for op in rng.sample(FILL_OPS, 3) if tier != "thorough" else FILL_OPS:
+                yield f"{op} {s}{cfg} {k} {st.hex()}", "wide-fill"
+            yield f"{rng.choice(FILL_OPS)}{rng.choice(['', '_err'])} {s}{cfg} {k} {st[:-3 - rng.randrange(BY)].hex() or '-'}", "wide-short-stream"
+            # per bounds class (full range, size 1, 2^k(+-1), spanning zero, MAX-ish, M - 2^j, random) one draw through
+            # the one-shot family (its own zone formula) and one through the stored-sampler family, the stream
+            # starting with a word rejected just above the zone and a word accepted on its last multiple
+            huge = cfg in HUGE_CFGS
+            classes = [0, 1, 2, 3, 4, 6, 7] if tier == "thorough" else \
+                [0, rng.choice([2, 6]), rng.choice([1, 3, 4, 7])] if huge else [0, 2, rng.choice([1, 3, 4]), 6, 7]
+            one_shot = ["sample_single_inclusive", "gen_range_inclusive", "sample_single", "gen_range"]
+            stored = ["uniform_new_inclusive", "uniform_new", "sampler_new_inclusive", "sampler_new",
+                      "uniform_from_inclusive", "uniform_from"]
+            rng.shuffle(one_shot)
+            rng.shuffle(stored)
+            for i, c in enumerate(classes):
+                lo, hi = bounds(rng, w, n, s == "i", c)
+                r = (hi - lo + 1) % (1 << W)
+                fams = (one_shot, stored) if (tier == "thorough" or not huge) else ((one_shot, stored)[(i + (s == "i")) % 2],)
+                for fam in fams:
+                    op = fam[i % len(fam)]
+                    h = hi
+                    if not op.endswith("_inclusive"):
+                        h = excl_high(hi, W, s == "i")
+                        if h is None:
+                            op, h = op + "_inclusive", hi
+                    st = b"".join(v.to_bytes(BY, "little") for v in straddle(W, r, fam is stored))
+                    st += stream(rng, BY, 1) + b"\x00" * BY
+                    yield sampling_line(op, s, cfg, lo, h, st), "wide-bounds"
+            if huge and tier != "thorough" and (s == "i") != (w in (8, 32)):
+                continue
+            lo, hi = bounds(rng, w, n, s == "i", rng.choice([2, 6, 7]))
+            k = rng.choice([2, 3])
+            yield f"uniform_many {s}{cfg} 1 {hx(lo)} {hx(hi)} {k} {(stream(rng, BY, k + 1) + bytes(BY * k)).hex()}", "wide-uniform-many"
+
+
+def gen_enum(rng, tier):
+    """COMPLETE ENUMERATION of the RNG words at 8 and 16 bits (one request = all 2^BITS words of one range):
+    exact unbiasedness (equal preimage counts) of both zone formulas, through every entry point."""
+    single = ("ssi", "ss", "gri", "gr")
+    stored = ("uni", "un")
+
+    def req(s, cfg, W, kind, lo, hi):
+        # kinds ss / gr / un take the exclusive bound; fall back to the inclusive twin at the type's MAX
+        if kind in ("ss", "gr", "un"):
+            h1 = excl_high(hi, W, s == "i")
+            if h1 is None:
+                kind = {"ss": "ssi", "gr": "gri", "un": "uni"}[kind]
+            else:
+                hi = h1
+        return f"enum_words {s}{cfg} {kind} {hx(lo)} {hx(hi)}", "enum%d" % W
+
+    if tier == "thorough":
+        # 8 bits: all 2^8 words x ALL 32896 pairs low <= high, signed and unsigned, one-shot and stored sampler
+        for s in "ui":
+            lo_lim, hi_lim = limits(8, s == "i")
+            for lo in range(lo_lim, hi_lim + 1):
+                for hi in range(lo, hi_lim + 1):
+                    i = lo * 7 + hi
+                    yield req(s, "8x1", 8, ("ssi", "gri", "ss", "gr")[i % 4] if i % 3 else "ssi", pat(lo, 8), pat(hi, 8))
+                    yield req(s, "8x1", 8, "un" if i % 3 == 1 else "uni", pat(lo, 8), pat(hi, 8))
+    else:
+        # 8 bits: every range size 1..256, at the type's MIN or MAX and at a random position
+        for s in "ui":
+            lo_lim, hi_lim = limits(8, s == "i")
+            for size in range(1, 257):
+                lows = {rng.choice([lo_lim, hi_lim - size + 1]), rng.randrange(lo_lim, hi_lim - size + 2)}
+                for lo in sorted(lows):
+                    hi = lo + size - 1
+                    yield req(s, "8x1", 8, rng.choice(single), pat(lo, 8), pat(hi, 8))
+                    yield req(s, "8x1", 8, rng.choice(stored), pat(lo, 8), pat(hi, 8))
+            yield req(s, "8x1", 8, "ssi", pat(3, 8), pat(2, 8))           # empty range: panic
+            yield req(s, "8x1", 8, "un", pat(3, 8), pat(3, 8))
+    # 16 bits (both 16-bit instantiations): all 2^16 words for a few ranges per class
+    for cfg in ("8x2", "16x1"):
+        w, n = wn(cfg)
+        if tier == "thorough":
+            for j in range(20):
+                for fam in (single, stored):
+                    for s in "ui":
+                        lo, hi = bounds(rng, w, n, s == "i", [2, 6, 7, 3, 0, 4, 1][(2 * j + (fam is stored)) % 7])
+                        yield req(s, cfg, 16, fam[j % len(fam)], lo, hi)
+        else:
+            for j in range(2):
+                for fam in (single, stored):
+                    s = "ui"[(j + (fam is stored) + (cfg == "16x1")) % 2]
+                    lo, hi = bounds(rng, w, n, s == "i", rng.choice([2, 6, 7, 3]))
+                    yield req(s, cfg, 16, rng.choice(fam), lo, hi)
+
+
 def gen(rng, tier):
+    yield from gen_wide(rng, tier)
+    yield from gen_enum(rng, tier)
     # streams that start with a zone-boundary word followed by filler: acceptance must flip exactly at the boundary
     for cfg in (cfgs(tier)):
         w, n = wn(cfg)
         if n > 20:
-            continue
+            continue                                  # these instantiations are served by gen_wide
         W = w * n
         BY = W // 8
         for _ in range(6 if tier == "thorough" else 2):
@@ -99,8 +261,7 @@ def gen(rng, tier):
                 r = (hi - lo + 1) % (1 << W)
                 for v in boundary_words(rng, W, r)[:8]:
                     st = v.to_bytes(BY, "little") + stream(rng, BY, 3)
-                    for op in ("sample_single_inclusive", "uniform_new_inclusive", "gen_range_inclusive"):
-                        yield f"{op} {s}{cfg} {hx(lo)} {hx(hi)} {st.hex()}", "zone-boundary"
+                    yield from both_forms(rng, s, cfg, W, lo, hi, st, "zone-boundary", INCL_OPS, EXCL_OPS)
     # long rejection runs: the same (normally rejected) word k times, then filler.  "For every RNG output
     # stream" includes streams that are rejected 64, 65, 200 times in a row (added after seeded change C20-r4m2)
     for cfg in ["8x1", "8x3", "16x3", "64x2", "32x2"] + (["8x17", "64x3"] if tier == "thorough" else []):
@@ -118,31 +279,49 @@ def gen(rng, tier):
                 bw = boundary_words(rng, W, size)
                 for v in ([1] + bw[1:2] + bw[6:7]):
                     st = v.to_bytes(BY, "little") * k + stream(rng, BY, 2) + b"\x00" * BY
-                    for op in ("sample_single_inclusive", "uniform_new_inclusive", "gen_range_inclusive", "gen_range"):
-                        yield f"{op} {s}{cfg} {hx(pat(lo, W))} {hx(pat(hi, W))} {st.hex()}", "rejection-run-%d" % k
+                    yield from both_forms(rng, s, cfg, W, pat(lo, W), pat(hi, W), st, "rejection-run-%d" % k,
+                                          INCL_OPS, EXCL_OPS)
     reps = 100 if tier == "thorough" else 50
     for cfg in cfgs(tier):
         w, n = wn(cfg)
-        if n > 20:
-            continue
-        BY = w * n // 8
-        for _ in range(reps):
+        W = w * n
+        BY = W // 8
+        wide = n > 20
+        for rep in range(reps):
             for s in "ui":
-                for op in ("sample_single", "sample_single_inclusive", "uniform_new", "uniform_new_inclusive", "gen_range", "gen_range_inclusive"):
+                if not wide:
+                    for op in INCL_OPS + EXCL_OPS:
+                        lo, hi = bounds(rng, w, n, s == "i")
+                        st = stream(rng, BY, rng.choice([1, 2, 4, 8]))
+                        yield sampling_line(op, s, cfg, lo, hi, st), "bounds"
+                if not wide and rep % 5 == 0:
+                    # least-used entry points; the scripted RNG answering `Err` instead of panicking; one stored
+                    # sampler drawn from several times; the crate's own range test
+                    op = rng.choice(RARE_INCL_OPS + RARE_EXCL_OPS)
                     lo, hi = bounds(rng, w, n, s == "i")
-                    st = stream(rng, BY, rng.choice([1, 2, 4, 8]))
-                    yield f"{op} {s}{cfg} {hx(lo)} {hx(hi)} {st.hex()}", "bounds"
-                st = stream(rng, BY, 1) + bytes(rng.randrange(256) for _ in range(rng.randrange(3)))
+                    st = stream(rng, BY, rng.choice([1, 2, 4]))
+                    yield sampling_line(op, s, cfg, lo, hi, st), "rare-entry"
+                    op = rng.choice(INCL_OPS + EXCL_OPS + RARE_INCL_OPS + RARE_EXCL_OPS) + "_err"
+                    lo, hi = bounds(rng, w, n, s == "i")
+                    st = stream(rng, BY, rng.choice([1, 1, 2]))
+                    yield sampling_line(op, s, cfg, lo, hi, st[:len(st) - rng.choice([0, 0, 1, BY])]), "err-mode"
+                    lo, hi = bounds(rng, w, n, s == "i", rng.choice([0, 1, 2, 3, 4, 6, 7, 7, 5]))
+                    k = rng.choice([0, 1, 2, 3, 5])
+                    st = stream(rng, BY, k + rng.randrange(3))
+                    yield f"uniform_many{rng.choice(['', '', '_err'])} {s}{cfg} {rng.randrange(2)} {hx(lo)} {hx(hi)} {k} {st.hex() or '-'}", "uniform-many"
+                    lo, hi = bounds(rng, w, n, s == "i")
+                    x = pat(rng.choice([lo, hi, lo - 1, hi + 1, lo + 1, hi - 1, rng.randrange(1 << W)]), W)
+                    yield f"check_in_range {s}{cfg} {hx(lo)} {hx(hi)} {hx(x)} {rng.randrange(2)}", "check-in-range"
+                if wide and rep % 10:
+                    continue
+                st = stream(rng, BY, 1) + rng.randbytes(rng.randrange(3))
                 yield f"standard {s}{cfg} {st.hex()}", "standard"
-                yield f"standard {s}{cfg} {st[:BY - 1].hex() or '-'}", "short-stream"
+                yield f"standard{rng.choice(['', '_err'])} {s}{cfg} {st[:BY - 1].hex() or '-'}", "short-stream"
                 k = rng.randrange(0, 5)
-                st = stream(rng, BY, k) + bytes(rng.randrange(256) for _ in range(rng.randrange(3)))
+                st = stream(rng, BY, k) + rng.randbytes(rng.randrange(3))
                 yield f"fill {s}{cfg} {k} {st.hex() or '-'}", "fill"
                 yield f"fill_each {s}{cfg} {k} {st.hex() or '-'}", "fill"
-    if tier == "thorough":
-        # complete enumeration at 8 bits: all (low, high) x all 256 words
-        for s in "ui":
-            for lo in range(256):
-                for hi in range(0, 256, 3):
-                    for wd in range(0, 256, 5):
-                        yield f"sample_single_inclusive {s}8x1 {hx(lo)} {hx(hi)} {format(wd, '02x')}{'00' * 0}", "enum8"
+                op = rng.choice(FILL_OPS[2:]) if rep % 2 else rng.choice(FILL_OPS) + "_err"
+                if rep % 4 >= 2 and k > 0:
+                    st = st[:BY * k - 1 - rng.randrange(BY)]          # the slice fill runs out of bytes
+                yield f"{op} {s}{cfg} {k} {st.hex() or '-'}", "fill-entry"
